@@ -246,11 +246,23 @@ def int_equiv(text, reference, samples):
 
 
 class _IntCalls(ast.NodeTransformer):
-    """int(x) of an integer expression is the expression."""
+    """Integer idioms over non-negative operands: int(a / b) and divmod(a, b)[0] are a // b, divmod(a, b)[1] is a % b,
+    int(x) of an integer expression is the expression."""
     def visit_Call(self, node):
         self.generic_visit(node)
         if isinstance(node.func, ast.Name) and node.func.id == 'int' and len(node.args) == 1 and not node.keywords:
-            return node.args[0]
+            a = node.args[0]
+            if isinstance(a, ast.BinOp) and isinstance(a.op, ast.Div):
+                return ast.BinOp(left=a.left, op=ast.FloorDiv(), right=a.right)
+            return a
+        return node
+
+    def visit_Subscript(self, node):
+        self.generic_visit(node)
+        v = node.value
+        if isinstance(v, ast.Call) and isinstance(v.func, ast.Name) and v.func.id == 'divmod' and len(v.args) == 2 and not v.keywords and \
+                isinstance(node.slice, ast.Constant) and node.slice.value in (0, 1):
+            return ast.BinOp(left=v.args[0], op=ast.FloorDiv() if node.slice.value == 0 else ast.Mod(), right=v.args[1])
         return node
 
 
@@ -367,6 +379,71 @@ ENTROPY_PATTERNS = [
 ]
 
 
+def _operand_before(text, idx):
+    """The operand that ends at text[idx] (exclusive): identifiers, attribute dots and balanced brackets, scanned backwards."""
+    i, d = idx, 0
+    while i > 0:
+        ch = text[i - 1]
+        if ch in ')]}':
+            d += 1
+        elif ch in '([{':
+            if d == 0:
+                break
+            d -= 1
+        elif d == 0 and not (ch.isalnum() or ch in '_.$<>#'):
+            break
+        i -= 1
+    return text[i:idx]
+
+
+def fresh_draw(text):
+    """('iv' | 'key', <cipher text>) when `text` is, as a whole, one fresh draw of a cipher's block / key size:
+    <cipher>.gen_iv() / <cipher>.gen_key(), or os.urandom(n) with n equal to <cipher>.block_size // 8 / <cipher>.key_size // 8 at
+    every size (folded by the checker) - what gen_iv / gen_key themselves are required to be by C13.1.  None otherwise."""
+    t = (text or '').strip()
+    m = re.match(r'^(?P<alg>.+)\.gen_(?P<kind>iv|key)\(\)$', t)
+    if m and _balanced(m.group('alg')):
+        return m.group('kind'), m.group('alg')
+    c = split_args(t)
+    if c is not None and c[0] == 'os.urandom' and len(c[1]) == 1:
+        n = c[1][0]
+        for attr, kind in (('.block_size', 'iv'), ('.key_size', 'key')):
+            i = n.find(attr)
+            if i > 0:
+                alg = _operand_before(n, i)
+                if alg and int_equiv(n, lambda B: B // 8, {alg + attr: ('B', [64, 128, 192, 256])}) is True:
+                    return kind, alg
+    return None
+
+
+def n_draws(state):
+    """Number of entropy-source calls made on this path (gen_iv / gen_key / os.urandom / key generators)."""
+    return sum(len(draws(state, x)) for x in ('gen_iv', 'gen_key', 'urandom', 'generate', 'generate_private_key'))
+
+
+def random_prefix(items, alg, data):
+    """RFC 4880 5.13 prefix: items start with <one fresh block-size draw of `alg`> <its last two octets> <data>.
+    -> the text of the draw, or None."""
+    from .interp import sl
+    if len(items) >= 3 and fresh_draw(items[0]) == ('iv', alg) and items[1] == sl(items[0], (-2, '')) and items[2] == data:
+        return items[0]
+    return None
+
+
+def qualify_urandom(text, module):
+    """`from os import urandom`: a bare urandom(...) in a value text is os.urandom(...)."""
+    imp = getattr(module, 'imports', {}).get('urandom')
+    if text and imp is not None and imp[0] == 'os' and imp[1] == 'urandom':
+        return re.sub(r'(?<![A-Za-z0-9_.])urandom\(', 'os.urandom(', text)
+    return text
+
+
+def is_urandom_of(text, nbytes, module=None):
+    """Is `text`, as a whole, os.urandom(<expression that folds to nbytes>)?"""
+    c = split_args(qualify_urandom(text, module) if module is not None else (text or ''))
+    return c is not None and c[0] == 'os.urandom' and len(c[1]) == 1 and int_equiv(c[1][0], lambda: nbytes, {}) is True
+
+
 def entropy_call(text):
     """Match object if `text` is, as a whole, a call of an entropy source."""
     t = text.strip()
@@ -451,6 +528,11 @@ def leaks(state, name, allowed_calls, ignore_targets=(), sanitizers=None, substr
         base = ft.split('.')[-1]
         if base in allowed_calls or ft in allowed_calls:
             continue
+        fnode = getattr(node, 'func', None)
+        if base in ('append', 'extend', 'join', 'insert') and isinstance(fnode, ast.Attribute) and \
+                isinstance(fnode.value, (ast.Name, ast.Constant)) and \
+                not re.match(r'^(<[A-Za-z0-9_#]+>|[A-Za-z_][A-Za-z0-9_]*)(\.[A-Za-z_][A-Za-z0-9_]*)*$', ft):
+            continue            # building a LOCAL buffer / list (a local whose value is its contents): tracked as a value, not an escape
         allargs = list(args) + list(kw.values())
         if any(mentions(strip_calls(a, sanitizers), name) for a in allargs):
             out.append(('call', '%s(%s)' % (ft, ', '.join(allargs)), line))
